@@ -1,17 +1,19 @@
 #!/bin/bash
 # usage: tools/run_patch_suite.sh <patch> <expect: silent|alarm> [properties...]
-# applies <patch> to a scratch worktree of /repo's HEAD (outside /repo and /verif), runs the checks against it
-# with GSA_REPO, removes the worktree. Exit 0 when the expectation is met.
+# applies <patch> to a scratch worktree of /repo's HEAD (outside /repo and /verif), exports the facts of that tree once,
+# runs the checks against them (no evidence is written), removes the worktree. Exit 0 when the expectation is met.
 set -u
 PATCH="$1"; EXPECT="$2"; shift 2
 PROPS="${@:-C01 C02 C03 C04 C05 C06 C07 C08 C11 C12 C13 C14 C15 C16 C17 C18 C19 C20}"
 W=$(mktemp -d /tmp/gsa-wt.XXXXXX); rmdir "$W"
+F=$(mktemp /tmp/gsa-facts.XXXXXX.json)
 git -C /repo worktree add -q "$W" HEAD || exit 2
-trap 'git -C /repo worktree remove --force "$W" >/dev/null 2>&1' EXIT
+trap 'git -C /repo worktree remove --force "$W" >/dev/null 2>&1; rm -f "$F"' EXIT
 git -C "$W" apply "$PATCH" || { echo "patch does not apply: $PATCH"; exit 3; }
+GSA_REPO="$W" /verif/export_facts.sh "$F" || { echo "fact export failed (does the patched tree build?)"; exit 2; }
 alarms=""
 for c in $PROPS; do
-  out=$(cd /verif && GSA_REPO="$W" GSA_NO_EVIDENCE=1 ./check $c 2>&1); rc=$?
+  out=$(cd /verif && GSA_NO_EVIDENCE=1 ./check $c --facts "$F" 2>&1); rc=$?
   if [ $rc -eq 1 ]; then alarms="$alarms $c"; echo "$out" | grep -A1 "violation rule" | head -6; fi
   if [ $rc -ge 2 ]; then echo "checker error on $c"; echo "$out" | tail -5; exit 2; fi
 done
